@@ -24,7 +24,8 @@ RULE = ("Ability bitmaps 2^5 modes x 2^7 (AT4) / 2^8 (AT5) fan speeds (thorough:
 ASSUMPTIONS = ["what the unit advertises is read from the ability record with the reference "
                "codec", "ValueError must be raised by the call itself (before or while awaited)"]
 REQUIRED_OBS = ["refused_locally", "accepted_one_frame", "bitmaps_covered", "timer_pairs",
-                "clamped_setpoints", "sensorless_zone_refusals", "damper_out_of_range"]
+                "clamped_setpoints", "sensorless_zone_refusals", "damper_out_of_range",
+                "state_changes_between_calls"]
 SOAK = True   # also judged by the whole-run monitors of the soak sessions (vf/soak.py)
 BUDGET = {"quick": 100, "thorough": 1500}
 
@@ -55,8 +56,9 @@ def cases(tier, seed):
         for block in range(-5, 45, 10):
             yield {"k": "clamp", "gen": gen, "lo": block, "seed": rnd.randrange(1 << 30)}
     n = 60 if tier == "quick" else 15000
-    for _ in range(n):
-        yield {"k": "random", "gen": rnd.choice((4, 5)), "seed": rnd.randrange(1 << 30)}
+    for i in range(n):
+        yield {"k": "random" if i % 2 else "churn", "gen": rnd.choice((4, 5)),
+               "seed": rnd.randrange(1 << 30)}
 
 
 def run_case(case):
@@ -66,7 +68,7 @@ def run_case(case):
     fps = set()
     total = 0
 
-    def run(inst, calls, tag):
+    def run(inst, calls, tag, churn=None):
         nonlocal total
         total += len(calls)
 
@@ -111,7 +113,10 @@ def run_case(case):
                 if not (lo <= call[3][0] <= hi):
                     obs["clamped_setpoints"] = obs.get("clamped_setpoints", 0) + 1
 
-        st = K.exercise(gen, inst, calls, on_result=on_result)
+        st = K.exercise(gen, inst, calls, on_result=on_result, churn=churn)
+        if st.get("churned"):
+            obs["state_changes_between_calls"] = obs.get("state_changes_between_calls", 0) + \
+                st["churned"]
         if st.get("init") is not True or st["loop"] != "ok":
             viol.append({"mechanism": "command-world-did-not-run",
                          "detail": {"init": repr(st.get("init")), "loop": st["loop"], "tag": tag}})
@@ -164,6 +169,11 @@ def run_case(case):
             for t in temps:
                 calls.append(("ac", ai, "set_target_temperature", (t,)))
         run(inst, calls, "clamp")
+    elif k == "churn":
+        # what the console reports changes between the calls (sensor presence, turbo support,
+        # control method, AC mode and with it the AT5 limits): validation follows the LATEST
+        inst = K.make_installation(gen, rnd)
+        run(inst, K.gen_calls(gen, inst, rnd, 150), "churn", churn=random.Random(case["seed"] + 1))
     else:
         inst = K.make_installation(gen, rnd)
         run(inst, K.gen_calls(gen, inst, rnd, 150), "random")
